@@ -190,6 +190,9 @@ pub struct SimRing {
     pub sq_entries: u32,
     pub cq_entries: u32,
     pub layout: Layout,
+    /// Offset of the submission index array (rings set up without
+    /// IORING_SETUP_NO_SQARRAY).
+    pub sq_array_off: Option<u32>,
     pub params_in: Params,
     mem: *mut u8,
     mem_len: usize,
@@ -562,10 +565,6 @@ impl Sim {
             set_unsupported(format!("io_uring_setup flags {flags:#x}"));
             return fail(libc::EINVAL);
         }
-        if flags & abi::SETUP_NO_SQARRAY == 0 {
-            set_unsupported("ring with SQ array".into());
-            return fail(libc::EINVAL);
-        }
         // Kernel rules (io_uring_create / io_uring_sanitise_params).
         if params_in.resv.iter().any(|r| *r != 0) {
             return fail(libc::EINVAL);
@@ -632,7 +631,16 @@ impl Sim {
         }
 
         let layout = self.cfg.layout;
-        let ring_bytes = (layout.cqes as usize + cq_entries as usize * 16).next_multiple_of(PAGE);
+        // Without IORING_SETUP_NO_SQARRAY the ring memory also holds the
+        // submission index array behind the completion entries (rings_size():
+        // cache-line aligned, sq_entries 32-bit indices, zeroed), and the
+        // kernel takes the SQE index of every submission from it (K17).
+        let cqes_end = layout.cqes as usize + cq_entries as usize * 16;
+        let sq_array_off = if flags & abi::SETUP_NO_SQARRAY == 0 { Some(cqes_end.next_multiple_of(64) as u32) } else { None };
+        let ring_bytes = match sq_array_off {
+            Some(off) => (off as usize + sq_entries as usize * 4).next_multiple_of(PAGE),
+            None => cqes_end.next_multiple_of(PAGE),
+        };
         let sqes_bytes = (sq_entries as usize * 64).next_multiple_of(PAGE);
         let fd = unsafe { libc::memfd_create(c"a10verif-ring".as_ptr(), libc::MFD_CLOEXEC) };
         if fd < 0 {
@@ -654,6 +662,7 @@ impl Sim {
             sq_entries,
             cq_entries,
             layout,
+            sq_array_off,
             params_in,
             mem: mem.cast(),
             mem_len: ring_bytes,
@@ -699,7 +708,7 @@ impl Sim {
             ring_entries: layout.sq_entries,
             flags: layout.sq_flags,
             dropped: layout.sq_dropped,
-            array: 0,
+            array: sq_array_off.unwrap_or(0),
             resv1: 0,
             user_addr: 0,
         };
@@ -823,7 +832,21 @@ impl SimRing {
         let mut serials = Vec::new();
         for _ in 0..n {
             let position = self.k_sq_head;
-            let sqe = self.read_sqe_slot(position);
+            let sqe = match self.sq_array_off {
+                None => self.read_sqe_slot(position),
+                Some(off) => {
+                    // io_get_sqe(): the index comes from the array; an index
+                    // out of range is counted as dropped and ends the batch.
+                    let idx = self.word(off + 4 * (position & (self.sq_entries - 1))).load(Ordering::Acquire);
+                    if idx >= self.sq_entries {
+                        self.k_sq_head = self.k_sq_head.wrapping_add(1);
+                        let d = self.word(self.layout.sq_dropped).load(Ordering::Relaxed);
+                        self.word(self.layout.sq_dropped).store(d.wrapping_add(1), Ordering::Relaxed);
+                        break;
+                    }
+                    unsafe { self.sqes.add(idx as usize).read_volatile() }
+                }
+            };
             self.k_sq_head = self.k_sq_head.wrapping_add(1);
             let serial = next_serial();
             ev(SimEvent::Consumed { serial, sqe, position });
@@ -835,7 +858,7 @@ impl SimRing {
             self.inflight.push(req);
             serials.push(serial);
         }
-        if n > 0 && publish {
+        if (n > 0 || !serials.is_empty()) && publish {
             self.publish_sq_head();
         }
         serials
